@@ -281,7 +281,13 @@ Definition ctrans (_ : nat) (t : vec -> Q) (s : sst) (r : rnd) : sst :=
       adopt s 0 [r_logu r / rate] (r_vec r)                                   (* r_logu carries the scripted standard variate *)
   | KLrto =>                          (* zero noise: the minimiser of the stacked least-squares problem = conditional mean *)
       let n := length (s_pt s) in
-      adopt s (s_scale s) (qsolve n (combine (hessq t (s_scale s) n) (grad0q t (s_scale s) n))) (r_vec r)
+      let H := hessq t (s_scale s) n in
+      let g0 := grad0q t (s_scale s) n in
+      let m := qsolve n (combine H g0) in
+      (* the elimination is not proved correct: its result is used only if it solves H m = g0 EXACTLY (checked here) *)
+      if ql_eqb (map (fun row => fold_left (fun acc xy => acc + fst xy * snd xy) (combine row m) 0) H) g0
+      then adopt s (s_scale s) m (r_vec r)
+      else set_all s (r_vec r) (s_cache s) [1] 1
   | KDirect =>                        (* test distribution: draw = z + (logd(1..1) - logd(0..0)) of the target it is *)
       let p0 := map (fun _ => 0) (s_pt s) in
       let p1 := map (fun _ => 1) (s_pt s) in
